@@ -286,6 +286,26 @@ impl VRead {
             r.is_ok() ==> final(self).pos() == old(self).pos() + old(buf)@.len()
                 && final(buf)@ == old(self).content().subrange(old(self).pos(), old(self).pos() + old(buf)@.len()),
     { unimplemented!() }
+    /// `Read::read` (0 hits on /repo; lets an edit that replaces `read_exact` by a single `read` reach the
+    /// verifier) with its REAL contract: Ok(n) with 0 <= n <= buf.len() and n no more than what is left; the first
+    /// n bytes of buf are the next n bytes of the file, the rest of buf is unchanged, the position advances by n;
+    /// n MAY be smaller than buf.len() even when more bytes are available (short read); it fails only for
+    /// reasons of the environment.  Nothing is said about position/buffer after an Err.
+    #[verifier::external_body]
+    pub fn read(&mut self, buf: &mut Vec<u8>) -> (r: Result<usize, IoError>)
+        requires old(self).pos() >= 0,
+        ensures final(self).content() == old(self).content(), final(self).env_ok() == old(self).env_ok(),
+            final(buf)@.len() == old(buf)@.len(),
+            old(self).env_ok() ==> r.is_ok(),
+            r matches Ok(n) ==> {
+                &&& n <= old(buf)@.len()
+                &&& final(self).pos() == old(self).pos() + n
+                &&& n == 0 ==> final(buf)@ == old(buf)@
+                &&& n > 0 ==> old(self).pos() + n <= old(self).content().len()
+                        && final(buf)@ == old(self).content().subrange(old(self).pos(), old(self).pos() + n)
+                            + old(buf)@.subrange(n as int, old(buf)@.len() as int)
+            },
+    { unimplemented!() }
     /// `let mut b = BytesMut::zeroed(n); file.read_exact(&mut b)` as one step
     #[verifier::external_body]
     pub fn read_cur(&mut self, n: usize) -> (r: Result<Cur, IoError>)
